@@ -729,7 +729,12 @@ fn check_composition(
     token: &LexerToken,
 ) -> Result<(), CompilerError> {
     trace!("Composition check between previous {:?} and current {:?}", previous, current);
-    match (previous, current) {
+    // direction of a binary operator makes no difference to what may stand next to it
+    let either_direction = |definition: SecondaryDefinition| match definition {
+        SecondaryDefinition::BinaryRightToLeft => SecondaryDefinition::BinaryLeftToRight,
+        d => d,
+    };
+    match (either_direction(previous), either_direction(current)) {
         (SecondaryDefinition::Value, SecondaryDefinition::Value) if !check_for_list => composition_error(previous, current, &token),
         (SecondaryDefinition::None, SecondaryDefinition::EndGrouping)
         | (SecondaryDefinition::None, SecondaryDefinition::BinaryLeftToRight)
